@@ -30,30 +30,30 @@ import (
 )
 
 type e2eCase struct {
-	Kind    string     `json:"kind"` // e2e
-	Class   string     `json:"class"`
-	Argv    []string   `json:"argv"`
-	Stdin   string     `json:"stdin,omitempty"`
-	Proto   string     `json:"proto"`
-	Want    [][2]int64 `json:"want"` // address number, port: what the specification denotes, by construction
-	NWant   int        `json:"nwant"`
-	Frames  string     `json:"frames"` // sorted 6-byte keys seen on the wire
-	NFrames int        `json:"nframes"`
-	RC      int        `json:"rc"`
-	Stderr  string     `json:"stderr,omitempty"`
-	Skipped string     `json:"skipped,omitempty"`
-	Seed    int64      `json:"case_seed"`
-	Local   string     `json:"local,omitempty"` // prefix made local to the namespace (application scans)
-	Pin     bool       `json:"pin,omitempty"`   // run sx pinned to ONE cpu (runtime.NumCPU() == 1)
-	Opt     string     `json:"opt,omitempty"`   // the option the case combines the exclusion file with
-	Bad     string     `json:"bad,omitempty"`   // kind of the refused exclusion line
-	Env     []string   `json:"env,omitempty"`   // extra environment of the sx process
-	Decoy   string     `json:"decoy,omitempty"` // hex key (address, port) of the decoy listener nothing may contact
-	KillMS  int        `json:"kill_ms,omitempty"` // interrupt sx after that long (live mode never ends by itself)
-	SetSem  bool       `json:"set,omitempty"`   // judged as a set: every due key at least once, nothing else
-	Redirect string    `json:"redirect,omitempty"` // the target listeners answer <code>:<Location>
-	TLS     bool       `json:"tls,omitempty"`
-	Inject  int        `json:"inject,omitempty"` // the far end answers that many TCP probes with a malformed SYN+ACK
+	Kind     string     `json:"kind"` // e2e
+	Class    string     `json:"class"`
+	Argv     []string   `json:"argv"`
+	Stdin    string     `json:"stdin,omitempty"`
+	Proto    string     `json:"proto"`
+	Want     [][2]int64 `json:"want"` // address number, port: what the specification denotes, by construction
+	NWant    int        `json:"nwant"`
+	Frames   string     `json:"frames"` // sorted 6-byte keys seen on the wire
+	NFrames  int        `json:"nframes"`
+	RC       int        `json:"rc"`
+	Stderr   string     `json:"stderr,omitempty"`
+	Skipped  string     `json:"skipped,omitempty"`
+	Seed     int64      `json:"case_seed"`
+	Local    string     `json:"local,omitempty"`    // prefix made local to the namespace (application scans)
+	Pin      bool       `json:"pin,omitempty"`      // run sx pinned to ONE cpu (runtime.NumCPU() == 1)
+	Opt      string     `json:"opt,omitempty"`      // the option the case combines the exclusion file with
+	Bad      string     `json:"bad,omitempty"`      // kind of the refused exclusion line
+	Env      []string   `json:"env,omitempty"`      // extra environment of the sx process
+	Decoy    string     `json:"decoy,omitempty"`    // hex key (address, port) of the decoy listener nothing may contact
+	KillMS   int        `json:"kill_ms,omitempty"`  // interrupt sx after that long (live mode never ends by itself)
+	SetSem   bool       `json:"set,omitempty"`      // judged as a set: every due key at least once, nothing else
+	Redirect string     `json:"redirect,omitempty"` // the target listeners answer <code>:<Location>
+	TLS      bool       `json:"tls,omitempty"`
+	Inject   int        `json:"inject,omitempty"` // the far end answers that many TCP probes with a malformed SYN+ACK
 }
 
 // firstCPU is one CPU this process may run on (for taskset).
